@@ -6,12 +6,12 @@ from .. import env, coq, runner, gates
 
 LEVEL = 'translation_validation'
 META = dict(
-    text='Coq theorems: a model of the control flow of kak_canonicalize_vector on exact coefficients (any rational multiple of pi/4, any atol) reaches the canonical Weyl chamber for every input, its trace of shifts/negations/swaps replays to the returned vector and each step keeps the implied two-qubit matrix (generic ring), and the validators (reconstructs, count_2q, kak_canonical) are sound; the minimal CNOT/CZ count is modelled as a function of the canonical coefficients (cz_class: 0 at the origin, 1 at (pi/4,0,0), 2 on the rest of the face z=0, 3 elsewhere) with its tolerance-aware validator proved exact at zero tolerance, witness circuits for one and two CNOTs, and the quantity num_cnots_required looks at (trace of u YY u^T YY) proved to be 4(cos2x cos2y cos2z + i sin2x sin2y sin2z) on exp(i(xXX+yYY+zZZ)) and blind to single-qubit gates; on every run the model is compared with cirq.kak_canonicalize_vector by vm_compute (coefficients, phase and the four single-qubit corrections, exactly), and every routine of a frozen list of decomposition / synthesis routines is run on a special-case corpus (identity, local gates, CNOT/iSWAP/SWAP classes, Weyl-chamber vertices/edges/faces, degenerate eigenvalues, +-1e-10..1e-8 perturbations of each boundary) and on seeded random unitaries x option flags; the returned factors / operations are recomposed inside Coq (float instance of the reference semantics) and must reproduce the input within the documented tolerance, with the promised factor forms and gate counts; num_cnots_required, kak_vector, extract_right_diag and two_qubit_matrix_to_cz_isometry are judged on the same corpus against the coefficients each point was built from or against kak_decomposition coefficients validated in the same Coq expression; a frozen set of structured two-qubit unitaries (diagonal incl. one-qubit phase gates on either qubit, tensor products, permutation and phased permutation matrices, singly controlled gates with either control, block-diagonal multiplexers) plus seeded random members of each class meets every two-qubit routine (theorems: with the first qubit in |0> a diagonal diag(a,b,c,d) acts on the columns |00>, |01> as I (x) diag(a,b), the other half diag(a,c) agrees only when b = c); cirq_google.known_2q_op_to_sycamore_operations is exercised gate by gate (CZ/CNOT/ZZ/SWAP/ISWAP/XX/YY powers at exponents +-1, +-0.5, +-0.25, +-1.5, +-2, +-3, 0, 1e-9, +-1 +- 1e-10 and random ones, PhasedISwap, SWAP+ZZ circuit operations, either qubit order, global shifts, tags) against the gate of the shared vocabulary evaluated inside Coq, and the same operations go as matrices through two_qubit_matrix_to_sycamore_operations (theorems: SWAP**-1 = SWAP, ISWAP**-1 is the inverse of ISWAP and no phase multiple of it); the n-qubit routines are also run with the qubits handed over in non-sorted orders; the heuristic tabulation decomposition (two_qubit_gate_product_tabulation / TwoQubitGateTabulation.compile_two_qubit_gate, and the Sycamore gateset built on it) is run on frozen tabulations (SYC, FSim(pi/4,pi/24), sqrt-iSWAP, CZ) and a seeded one, on the gate of every tabulated KAK vector (one, two and three base gates, equal and distinct inner layers) and on the corpus: the returned local layers interleaved with the base gate are recomposed in the reference semantics and must equal the reported actual_gate up to phase and, when success is True, lie within the tabulation infidelity bound of the target (theorems: the returned list (kR, k_1..k_n, kL) multiplies out in the documented order to kL.(A.k_n...A.k_1.A).kR for any number of layers; equal inner layers may be reversed, distinct ones may not; tr(U^dagger gV) = g tr(U^dagger V)).',
+    text='Coq theorems: a model of the control flow of kak_canonicalize_vector on exact coefficients (any rational multiple of pi/4, any atol) reaches the canonical Weyl chamber for every input, its trace of shifts/negations/swaps replays to the returned vector and each step keeps the implied two-qubit matrix (generic ring), and the validators (reconstructs, count_2q, kak_canonical) are sound; the minimal CNOT/CZ count is modelled as a function of the canonical coefficients (cz_class: 0 at the origin, 1 at (pi/4,0,0), 2 on the rest of the face z=0, 3 elsewhere) with its tolerance-aware validator proved exact at zero tolerance, witness circuits for one and two CNOTs, and the quantity num_cnots_required looks at (trace of u YY u^T YY) proved to be 4(cos2x cos2y cos2z + i sin2x sin2y sin2z) on exp(i(xXX+yYY+zZZ)) and blind to single-qubit gates; on every run the model is compared with cirq.kak_canonicalize_vector by vm_compute (coefficients, phase and the four single-qubit corrections, exactly), and every routine of a frozen list of decomposition / synthesis routines is run on a special-case corpus (identity, local gates, CNOT/iSWAP/SWAP classes, Weyl-chamber vertices/edges/faces, degenerate eigenvalues, +-1e-10..1e-8 perturbations of each boundary) and on seeded random unitaries x option flags; the returned factors / operations are recomposed inside Coq (float instance of the reference semantics) and must reproduce the input within the documented tolerance, with the promised factor forms and gate counts; num_cnots_required, kak_vector, extract_right_diag and two_qubit_matrix_to_cz_isometry are judged on the same corpus against the coefficients each point was built from or against kak_decomposition coefficients validated in the same Coq expression; a frozen set of structured two-qubit unitaries (diagonal incl. one-qubit phase gates on either qubit, tensor products, permutation and phased permutation matrices, singly controlled gates with either control, block-diagonal multiplexers) plus seeded random members of each class meets every two-qubit routine (theorems: with the first qubit in |0> a diagonal diag(a,b,c,d) acts on the columns |00>, |01> as I (x) diag(a,b), the other half diag(a,c) agrees only when b = c); cirq_google.known_2q_op_to_sycamore_operations is exercised gate by gate (CZ/CNOT/ZZ/SWAP/ISWAP/XX/YY powers at exponents +-1, +-0.5, +-0.25, +-1.5, +-2, +-3, 0, 1e-9, +-1 +- 1e-10 and random ones, PhasedISwap, SWAP+ZZ circuit operations, either qubit order, global shifts, tags) against the gate of the shared vocabulary evaluated inside Coq, and the same operations go as matrices through two_qubit_matrix_to_sycamore_operations (theorems: SWAP**-1 = SWAP, ISWAP**-1 is the inverse of ISWAP and no phase multiple of it); the n-qubit routines are also run with the qubits handed over in non-sorted orders; the heuristic tabulation decomposition (two_qubit_gate_product_tabulation / TwoQubitGateTabulation.compile_two_qubit_gate, and the Sycamore gateset built on it) is run on frozen tabulations (SYC, FSim(pi/4,pi/24), sqrt-iSWAP, CZ) and a seeded one, on the gate of every tabulated KAK vector (one, two and three base gates, equal and distinct inner layers) and on the corpus: the returned local layers interleaved with the base gate are recomposed in the reference semantics and must equal the reported actual_gate up to phase and, when success is True, lie within the tabulation infidelity bound of the target (theorems: the returned list (kR, k_1..k_n, kL) multiplies out in the documented order to kL.(A.k_n...A.k_1.A).kR for any number of layers; equal inner layers may be reversed, distinct ones may not; tr(U^dagger gV) = g tr(U^dagger V)); real matrices are also handed over as float64 / int64 arrays (rotations, reflections, (signed) permutations, SO(n) / O(n), skew-symmetric and other real normal matrices of size 1..8) to the eigendecomposition routines (unitary_eig, map_eigenvalues, single_qubit_op_to_framed_phase_form, to_special) and to every one-, two-, three-qubit and multi-controlled routine; cirq.parameterized_2q_op_to_sqrt_iswap_operations is judged through its resolutions on a fixed grid of exponents / angles (odd integers, 0, +-0.5, +-0.25, 1 +- 1e-10 ...) against the gate evaluated inside Coq; decompose_multi_controlled_x / _rotation are run on every shape (controls, borrowed qubits) of at most 9 qubits and selected ones on 10 and 11 (rotations with up to 9, thorough 10, controls), each returned operation list being run on every basis state in a sparse state-vector semantics (Xform/CtrlSynth.v) and compared with the column of the controlled gate; shapes of at most 5 qubits also in the dense reference semantics, and there the two semantics are compared (theorems: a one-qubit gate, CNOT and CCNOT act on the amplitudes of a sparse vector by the textbook rule on bit indices; merging keeps the meaning and pruning drops exactly the complement; the validator is sound in exact arithmetic; Barenco Lemma 7.2 with exact Toffolis is C^m X (x) I on all basis states for m = 3..6 when the ladder of borrowed qubits is traversed from the target downwards, and a different gate from two rungs on (m >= 5) when traversed the other way).',
     note='Translation validation: the quantifier over unitaries is sampled (corpus + seeded random), the evidence says how. Trusted: Coq kernel; the float instance (binary64 inside vm_compute, no proof about rounding); numpy/scipy/LAPACK inside Cirq; the Python adapters (operation -> Gallina term through the shared gate vocabulary; gates outside it enter through cirq.unitary, counted in the evidence). Where a docstring states no tolerance the routine\'s own atol x 10 is used (listed per routine in ROUTINES).',
     technique='Rocq/Coq proof (lia, ring) of the canonicaliser model and of the validators + vm_compute translation validation of every returned decomposition',
 )
 
-PRE = gates.COQ_HEADER + 'From VF Require Import Sim.Ref Xform.KakCanon Xform.KakCanonFloat.\n'
+PRE = gates.COQ_HEADER + 'From VF Require Import Sim.Ref Xform.KakCanon Xform.KakCanonFloat Xform.CtrlSynth Xform.CtrlSynthFloat.\n'
 PI4 = math.pi / 4
 
 # The frozen list of routines with the contract taken from each docstring.
@@ -473,6 +473,7 @@ def two_qubit_inputs(ctx, cirq, n_random, full=True):
         r = name_rng('weyl+locals:' + name)
         g = cmath.exp(1j * r.uniform(0, 2 * math.pi))
         out.append(('weyl+locals:' + name, g * local_pair(r, 'haar') @ core @ local_pair(r, 'haar'), xyz))
+    out += [('struct:' + n, u, None) for n, u in real_dtype_2q()]       # real matrices handed over as float64 / int64 arrays (see `given`)
     for i in range(n_random):
         r = rng.random()
         if r < 0.5:
@@ -505,7 +506,7 @@ def kak_stream(ctx, cirq, inputs, checks):
     for name, u, hint in inputs:
         rep = dict(kind='kak_decomposition', input_class=name, matrix=cmat(u))
         try:
-            k = cirq.kak_decomposition(u)
+            k = cirq.kak_decomposition(given(name, u))
         except Exception as e:
             ctx.violation(f'kak_decomposition:raises:{cls(name)}', f'kak_decomposition raised {type(e).__name__}: {e} on {name}', rep)
             continue
@@ -540,6 +541,95 @@ def cmat(u):
 
 def from_cmat(m):
     return np.array([[complex(a, b) for a, b in row] for row in m])
+
+
+# ---- the dtype of the array handed to a routine (an input form: "2x2 numpy unitary matrix (of real or complex dtype)") ----
+REAL_DTYPE, INT_DTYPE = 'real-dtype:', 'int-dtype:'
+
+
+def given(name, u):
+    """The array a routine receives for the corpus entry `name`: entries whose name carries `real-dtype:` / `int-dtype:` are real
+    matrices handed over as float64 / int64 arrays (the check's own arithmetic and the Coq literals use the complex copy)."""
+    if (INT_DTYPE in name or REAL_DTYPE in name) and not np.any(np.imag(u)):        # a derived matrix (magic basis, dressed, times a phase) stays complex
+        re = np.real(u)
+        if INT_DTYPE in name and np.array_equal(re, np.rint(re)):
+            return np.ascontiguousarray(re, dtype=np.int64)
+        return np.ascontiguousarray(re, dtype=np.float64)
+    return u
+
+
+def rot2(t):
+    return np.array([[math.cos(t), -math.sin(t)], [math.sin(t), math.cos(t)]])
+
+
+def refl2(t):
+    return np.array([[math.cos(t), math.sin(t)], [math.sin(t), -math.cos(t)]])
+
+
+def random_so(rng, n, det=1):
+    """Real orthogonal matrix (QR of a Gaussian matrix, signs fixed) with the given determinant."""
+    a = np.array([[rng.gauss(0, 1) for _ in range(n)] for _ in range(n)])
+    q, r = np.linalg.qr(a)
+    q = q * np.sign(np.diag(r))
+    if np.linalg.det(q) * det < 0:
+        q[:, 0] = -q[:, 0]
+    return q
+
+
+def cyc(n, k=1):
+    return np.roll(np.eye(n), k, axis=0)
+
+
+def real_dtype_1q():
+    """Real 2x2 orthogonal matrices as float64 / int64 arrays: rotations (non-real eigenvalues exp(+-it)), reflections, signed permutations."""
+    out = [(REAL_DTYPE + f'rot({tn})', rot2(t)) for tn, t in (('pi/2', math.pi / 2), ('0.3', 0.3), ('-2.5', -2.5), ('pi', math.pi), ('pi/4', math.pi / 4), ('1e-09', 1e-9),
+                                                               ('pi/2+1e-09', math.pi / 2 + 1e-9), ('3pi/2', 1.5 * math.pi))]
+    out += [(REAL_DTYPE + f'reflection({tn})', refl2(t)) for tn, t in (('0', 0.0), ('pi/2', math.pi / 2), ('pi/4', math.pi / 4), ('0.3', 0.3), ('-2.5', -2.5))]
+    out += [(INT_DTYPE + n, np.array(m)) for n, m in (('identity', [[1, 0], [0, 1]]), ('X', [[0, 1], [1, 0]]), ('Z', [[1, 0], [0, -1]]), ('-identity', [[-1, 0], [0, -1]]),
+                                                      ('rot(pi/2)', [[0, -1], [1, 0]]), ('rot(-pi/2)', [[0, 1], [-1, 0]]), ('-X', [[0, -1], [-1, 0]]))]
+    return [(n, np.asarray(m, dtype=complex)) for n, m in out]
+
+
+def real_dtype_2q():
+    """Real 4x4 orthogonal matrices as float64 / int64 arrays: (signed) permutations, products of rotations, block rotations, Haar SO(4) / O(4)."""
+    r = name_rng('struct:real-dtype')
+    z2 = np.zeros((2, 2))
+    givens = np.eye(4)
+    givens[1:3, 1:3] = rot2(0.9)
+    out = [(INT_DTYPE + 'identity', np.eye(4)), (INT_DTYPE + 'CNOT', np.eye(4)[[0, 1, 3, 2]]), (INT_DTYPE + 'SWAP', np.eye(4)[[0, 2, 1, 3]]), (INT_DTYPE + 'CZ', np.diag([1, 1, 1, -1])),
+           (INT_DTYPE + 'perm:1230', cyc(4)), (INT_DTYPE + 'perm:2301', cyc(4, 2)), (INT_DTYPE + 'perm:0231', np.eye(4)[[0, 2, 3, 1]]), (INT_DTYPE + 'rot(pi/2)(x)I', np.kron(rot2(math.pi / 2), np.eye(2)).round()),
+           (INT_DTYPE + 'signed-perm:3-cycle', np.eye(4)[[0, 2, 3, 1]] @ np.diag([1, -1, 1, -1])), (INT_DTYPE + 'controlled-rot(pi/2)', np.block([[np.eye(2), z2], [z2, rot2(math.pi / 2).round()]])),
+           (REAL_DTYPE + 'CNOT', np.eye(4)[[0, 1, 3, 2]]), (REAL_DTYPE + 'H(x)H', np.kron(refl2(math.pi / 4), refl2(math.pi / 4))), (REAL_DTYPE + 'rot(0.3)(x)I', np.kron(rot2(0.3), np.eye(2))),
+           (REAL_DTYPE + 'I(x)rot(0.3)', np.kron(np.eye(2), rot2(0.3))), (REAL_DTYPE + 'rot(0.3)(x)rot(-1.1)', np.kron(rot2(0.3), rot2(-1.1))),
+           (REAL_DTYPE + 'rot(0.3)+rot(2.0)', np.block([[rot2(0.3), z2], [z2, rot2(2.0)]])), (REAL_DTYPE + 'controlled-rot(0.7)', np.block([[np.eye(2), z2], [z2, rot2(0.7)]])),
+           (REAL_DTYPE + 'rot(0.3)+reflection(1.0)', np.block([[rot2(0.3), z2], [z2, refl2(1.0)]])), (REAL_DTYPE + 'givens(0.9)', givens)]
+    for i in range(3):
+        out.append((REAL_DTYPE + f'SO(4)#{i}', random_so(r, 4)))
+    out.append((REAL_DTYPE + 'O(4):det=-1', random_so(r, 4, -1)))
+    return [(n, np.asarray(m, dtype=complex)) for n, m in out]
+
+
+def real_dtype_3q():
+    r = name_rng('struct:real-dtype:3q')
+    out = [(INT_DTYPE + 'CCX', np.eye(8)[[0, 1, 2, 3, 4, 5, 7, 6]]), (INT_DTYPE + 'perm8:8-cycle', cyc(8)), (INT_DTYPE + 'perm8:3-cycle+5-cycle', np.eye(8)[[1, 2, 0, 4, 5, 6, 7, 3]]),
+           (INT_DTYPE + 'CSWAP', np.eye(8)[[0, 1, 2, 3, 4, 6, 5, 7]]), (REAL_DTYPE + 'perm8:8-cycle', cyc(8)), (REAL_DTYPE + 'SO(8)#0', random_so(r, 8)), (REAL_DTYPE + 'SO(8)#1', random_so(r, 8)),
+           (REAL_DTYPE + 'O(8):det=-1', random_so(r, 8, -1)), (REAL_DTYPE + 'rot(0.3)(x)rot(1.0)(x)rot(-2.0)', np.kron(np.kron(rot2(0.3), rot2(1.0)), rot2(-2.0))),
+           (REAL_DTYPE + 'SO(4)+SO(4)', np.block([[random_so(r, 4), np.zeros((4, 4))], [np.zeros((4, 4)), random_so(r, 4)]])), (REAL_DTYPE + 'H(x)H(x)H', np.kron(np.kron(refl2(math.pi / 4), refl2(math.pi / 4)), refl2(math.pi / 4)))]
+    return [(n, np.asarray(m, dtype=complex)) for n, m in out]
+
+
+def real_normal_inputs(rng):
+    """Real NORMAL matrices as float64 / int64 arrays for the eigendecomposition routines: orthogonal matrices with non-real spectrum (rotations, cyclic permutations,
+    SO(n)), skew-symmetric and other non-unitary normal matrices, real symmetric ones, sizes 1..8; the last entries are seeded."""
+    r = name_rng('real-normal')
+    sk = np.array([[0.0, 2.0, 0.0], [-2.0, 0.0, 1.0], [0.0, -1.0, 0.0]])
+    out = [(INT_DTYPE + 'perm:3-cycle', cyc(3)), (REAL_DTYPE + 'perm:3-cycle', cyc(3)), (INT_DTYPE + 'perm:5-cycle', cyc(5)), (INT_DTYPE + 'perm:8-cycle', cyc(8)), (REAL_DTYPE + 'skew-symmetric3', sk),
+           (INT_DTYPE + 'skew-symmetric2', np.array([[0, -3], [3, 0]])), (REAL_DTYPE + 'normal:2I+skew', 2 * np.eye(3) + sk), (REAL_DTYPE + 'normal:0.5*rot(0.3)', 0.5 * rot2(0.3)),
+           (REAL_DTYPE + 'symmetric3', np.array([[2.0, 1, 0], [1, 2, 1], [0, 1, 2]])), (INT_DTYPE + 'symmetric2', np.array([[2, 1], [1, 2]])), (REAL_DTYPE + 'scalar1', np.array([[-1.0]])),
+           (REAL_DTYPE + 'SO(3)#0', random_so(r, 3)), (REAL_DTYPE + 'SO(5)#0', random_so(r, 5)), (REAL_DTYPE + 'O(3):det=-1', random_so(r, 3, -1)), (REAL_DTYPE + 'zero2', np.zeros((2, 2)))]
+    for n in (2, 3, 4, 6):
+        out.append((REAL_DTYPE + f'random:SO({n})', random_so(rng, n)))
+    return [(n, np.asarray(m, dtype=complex)) for n, m in out]
 
 
 # =====================================================================================================
@@ -605,6 +695,36 @@ class Conv:
         return '[' + ';\n '.join(items) + ']'
 
 
+def sparse_term(conv, ops, qubits):
+    """-> Gallina list of `cop` (Xform/CtrlSynth.v: one-qubit gate / CNOT / CCNOT on bit positions; qubit k of n is bit n-1-k), or raises
+    ValueError when an operation is none of the three (the two multi-controlled routines promise "exclusively 1-qubit, CNOT and CCNOT gates")."""
+    c = conv.cirq
+    n = len(qubits)
+    bit = {q: n - 1 - i for i, q in enumerate(qubits)}
+    items = []
+    for op in ops:
+        if any(q not in bit for q in op.qubits):
+            raise ValueError(f'operation {op!r} acts outside the given qubits')
+        g = op.gate
+        b = [bit[q] for q in op.qubits]
+        full = g is not None and isinstance(g, (c.CXPowGate, c.CCXPowGate)) and float(g.exponent) == 1.0 and g.global_shift == 0
+        if len(b) == 1:
+            rec = conv.gate(g) if g is not None else None
+            if rec is None:
+                if not c.has_unitary(op):
+                    raise ValueError(f'operation {op!r} has no unitary')
+                conv.via_unitary[type(g).__name__] += 1
+                rec = gates.G('Matrix', dict(m=np.asarray(c.unitary(op), dtype=complex)), (2,))
+            items.append(f'c1_of {rec.coq()} {b[0]}%N')
+        elif full and isinstance(g, c.CXPowGate) and len(b) == 2:
+            items.append(f'CX {b[0]}%N {b[1]}%N')
+        elif full and isinstance(g, c.CCXPowGate) and len(b) == 3:
+            items.append(f'CCX {b[0]}%N {b[1]}%N {b[2]}%N')
+        else:
+            raise ValueError(f'operation {str(op)[:80]} is not a one-qubit gate, a CNOT or a CCNOT')
+    return '[' + ';\n '.join(items) + ']'
+
+
 def opdescs(ops, native):
     return '[' + '; '.join(f'mkOp {len(op.qubits)} {"true" if native(op) else "false"}' for op in ops) + ']'
 
@@ -626,16 +746,18 @@ def residual(a, b, phase):
 
 
 def add_ops_checks(ctx, conv, checks, routine, opts, name, u, ops, qubits, tol, phase, count=None, nontrivial=True, extra=None, cmp=None,
-                   uterm=None, alt=None, what_cmp=None):
+                   uterm=None, alt=None, what_cmp=None, sig_class=None):
     """count: (bound, exact: bool, native predicate, text) or None.  Appends the Coq comparisons for one returned op list.
     cmp: (validator name, text) replacing the comparison of the whole unitary (isometries compare the columns that matter).
     uterm: the reference matrix as a Gallina term (a gate of the shared vocabulary evaluated inside Coq) instead of the literal of u.
     alt: (validator name, signature, note): a weaker comparison evaluated only when the documented one fails; if it holds, the failure
     is reported under that signature (it classifies a failure, it never excuses one).
-    what_cmp: the sentence saying what differs from what, when u is not the routine's input (a reported matrix)."""
+    what_cmp: the sentence saying what differs from what, when u is not the routine's input (a reported matrix).
+    sig_class: the input class used in signatures instead of the corpus name (a property of the input shared by several corpus entries)."""
     cirq = conv.cirq
     ops = list(cirq.flatten_to_ops(ops))
     rep = dict(kind='synth', routine=routine, opts=opts, input_class=name, matrix=cmat(u))
+    scls = sig_class or cls(name)
     if extra:
         rep.update(extra)
     okey = ','.join(f'{k}={v}' for k, v in sorted(opts.items()))
@@ -643,7 +765,7 @@ def add_ops_checks(ctx, conv, checks, routine, opts, name, u, ops, qubits, tol, 
     try:
         term = conv.ops(ops, qubits)
     except Exception as e:
-        ctx.violation(f'{routine}:form:{cls(name)}', f'{stream} on {name}: {e}', rep)
+        ctx.violation(f'{routine}:form:{scls}', f'{stream} on {name}: {e}', rep)
         return
     n = len(qubits)
     ctx.count(stream, [name, rep['matrix']], nontrivial, sample=dict(input_class=name, operations=[str(o) for o in ops[:12]], n_ops=len(ops)))
@@ -657,7 +779,7 @@ def add_ops_checks(ctx, conv, checks, routine, opts, name, u, ops, qubits, tol, 
     um = uterm if uterm is not None else gates.fmat(u)
     more = dict(alt=f'{alt[0]} {fl(tol)} {gates.nlist([2] * n)} {term} {um}', alt_signature=alt[1], alt_note=alt[2]) if alt else {}
     checks.append((stream, f'{cmpf} {fl(tol)} {gates.nlist([2] * n)} {term} {um}', what,
-                   dict(rep, signature=f'{routine}:reconstruct:' + (extra or {}).get('sig_prefix', '') + cls(name), loose=f'{cmpf} {fl(10 * tol)} {gates.nlist([2] * n)} {term} {um}',
+                   dict(rep, signature=f'{routine}:reconstruct:' + (extra or {}).get('sig_prefix', '') + scls, loose=f'{cmpf} {fl(10 * tol)} {gates.nlist([2] * n)} {term} {um}',
                         loose2=f'{cmpf} {fl(1e-6)} {gates.nlist([2] * n)} {term} {um}' if 10 * tol < 1e-6 else 'false',
                         loose_signature=f'{routine}:reconstruct:within-10x-tolerance', **more)))
     if count is not None:
@@ -665,7 +787,7 @@ def add_ops_checks(ctx, conv, checks, routine, opts, name, u, ops, qubits, tol, 
         n2 = sum(1 for o in ops if len(o.qubits) >= 2)
         checks.append((stream + ':count', f'{"exact_count" if exact else "within_count"} {opdescs(ops, native)} {bound}',
                        f'{stream} on {name}: {text}; got {n2} operations on >= 2 qubits: {[str(o) for o in ops if len(o.qubits) >= 2]}',
-                       dict(rep, signature=f'{routine}:count:' + (extra or {}).get('sig_prefix', '') + cls(name))))
+                       dict(rep, signature=f'{routine}:count:' + (extra or {}).get('sig_prefix', '') + scls)))
         ctx.count(stream + ':count', [name, rep['matrix']], nontrivial)
 
 
@@ -727,13 +849,14 @@ def run_2q(ctx, cirq, mods, conv, checks, routine, opts, name, u, hint):
     cg = mods['cirq_google']
     nt = not name.startswith('identity')
     rep = dict(kind='synth', routine=routine, opts=opts, input_class=name, matrix=cmat(u), hint=list(hint) if hint is not None else None)
+    ug = given(name, u)
 
     def raised(e, extra=''):
         ctx.violation(f'{routine}:raises:{cls(name)}', f'{routine}({opts}) raised {type(e).__name__}: {e} on {name}{extra}', rep)
 
     if routine == 'two_qubit_matrix_to_cz_operations':
         try:
-            ops = cirq.two_qubit_matrix_to_cz_operations(q[0], q[1], u, **opts)
+            ops = cirq.two_qubit_matrix_to_cz_operations(q[0], q[1], ug, **opts)
         except Exception as e:
             return raised(e, ' (every two-qubit unitary can be written with three full CZs)')
         partial = opts['allow_partial_czs']
@@ -741,7 +864,7 @@ def run_2q(ctx, cirq, mods, conv, checks, routine, opts, name, u, hint):
                        (3, False, is_cz(partial), 'at most 3 two-qubit gates, all CZ' + (' powers' if partial else ' (no partial CZ)')), nt)
     elif routine == 'two_qubit_matrix_to_diagonal_and_cz_operations':
         try:
-            d, ops = cirq.two_qubit_matrix_to_diagonal_and_cz_operations(q[0], q[1], u, **opts)
+            d, ops = cirq.two_qubit_matrix_to_diagonal_and_cz_operations(q[0], q[1], ug, **opts)
         except Exception as e:
             return raised(e)
         ops = list(ops)
@@ -755,7 +878,7 @@ def run_2q(ctx, cirq, mods, conv, checks, routine, opts, name, u, hint):
         req, inv = opts['required_sqrt_iswap_count'], opts['use_sqrt_iswap_inv']
         expected = region_count(hint)
         try:
-            ops = cirq.two_qubit_matrix_to_sqrt_iswap_operations(q[0], q[1], u, **opts)
+            ops = cirq.two_qubit_matrix_to_sqrt_iswap_operations(q[0], q[1], ug, **opts)
         except ValueError as e:
             ctx.count(f'{routine}[required={req}]:ValueError', [name, rep['matrix']], nt)
             if req is None or req >= 3 or (expected is not None and expected <= req):
@@ -776,21 +899,21 @@ def run_2q(ctx, cirq, mods, conv, checks, routine, opts, name, u, hint):
         fname = opts['fsim_gate']
         fg = cirq.ISWAP if FSIMS[fname] is None else cirq.FSimGate(*FSIMS[fname])
         try:
-            circ = cirq.decompose_two_qubit_interaction_into_four_fsim_gates(u, fsim_gate=fg, qubits=q)
+            circ = cirq.decompose_two_qubit_interaction_into_four_fsim_gates(ug, fsim_gate=fg, qubits=q)
         except Exception as e:
             return raised(e)
         add_ops_checks(ctx, conv, checks, routine, opts, name, u, circ.all_operations(), q, 1e-7, False,
                        (4, True, lambda op: op.gate == fg, f'exactly four {fname} gates'), nt, extra=dict(sig_prefix=fname + ':'))
     elif routine == 'two_qubit_matrix_to_ion_operations':
         try:
-            ops = cirq.two_qubit_matrix_to_ion_operations(q[0], q[1], u, **opts)
+            ops = cirq.two_qubit_matrix_to_ion_operations(q[0], q[1], ug, **opts)
         except Exception as e:
             return raised(e)
         add_ops_checks(ctx, conv, checks, routine, opts, name, u, ops, q, 1e-8, True,
                        (3, False, lambda op: isinstance(op.gate, cirq.XXPowGate), 'at most 3 Molmer-Sorensen gates'), nt)
     elif routine == 'two_qubit_matrix_to_sycamore_operations':
         try:
-            ops = list(cirq.flatten_to_ops(cg.two_qubit_matrix_to_sycamore_operations(q[0], q[1], u, **opts)))
+            ops = list(cirq.flatten_to_ops(cg.two_qubit_matrix_to_sycamore_operations(q[0], q[1], ug, **opts)))
         except Exception as e:
             return raised(e)
         add_ops_checks(ctx, conv, checks, routine, opts, name, u, ops, q, 1e-8, True,
@@ -884,9 +1007,11 @@ def run_class(ctx, cirq, mods, conv, checks, routine, opts, name, u, hint, batch
     rep = dict(kind='class', routine=routine, opts=opts, input_class=name, matrix=cmat(u), hint=list(hint) if hint is not None else None)
     okey = ','.join(f'{k}={v}' for k, v in sorted(opts.items()))
     stream = routine + (f'[{okey}]' if okey else '')
+    ug = given(name, u)
+    scls = real_neg_det_class(ug) or cls(name)
 
     def raised(e):
-        ctx.violation(f'{routine}:raises:{cls(name)}', f'{routine}({opts}) raised {type(e).__name__}: {e} on {name}', rep)
+        ctx.violation(f'{routine}:raises:{scls}', f'{routine}({opts}) raised {type(e).__name__}: {str(e)[:200]} on {name}', rep)
 
     try:
         k, kxyz, rec, cert = kak_cert(cirq, u)
@@ -898,7 +1023,7 @@ def run_class(ctx, cirq, mods, conv, checks, routine, opts, name, u, hint, batch
     if routine == 'num_cnots_required':
         atol = opts.get('atol', 1e-8)
         try:
-            n = cirq.num_cnots_required(u, **opts)
+            n = cirq.num_cnots_required(ug, **opts)
         except Exception as e:
             return raised(e)
         ctx.count(stream, [name, rep['matrix']], nt, sample=dict(input_class=name, coefficients=[x, y, z], returned=int(n) if isinstance(n, (int, np.integer)) else repr(n)))
@@ -912,10 +1037,10 @@ def run_class(ctx, cirq, mods, conv, checks, routine, opts, name, u, hint, batch
                        f'{stream} on {name}: returned {int(n)}, but {src} ({x!r}, {y!r}, {z!r}) put the unitary '
                        f'{["at the origin: a product of single-qubit gates, 0 CNOT/CZ", "at the vertex (pi/4,0,0): the CNOT/CZ class, exactly 1 CNOT/CZ", "on the face z=0 away from the origin and from (pi/4,0,0): 2 CNOT/CZ are necessary and sufficient", "off the face z=0: 3 CNOT/CZ are necessary"][want]}'
                        f' (tolerance zones: {lo:g} / {m:g}, {m0:g} around the origin)',
-                       dict(rep, signature=f'{routine}:count:{cls(name)}')))
+                       dict(rep, signature=f'{routine}:count:{scls}')))
     elif routine == 'kak_vector':
         try:
-            v = batch_row if batch_row is not None else cirq.kak_vector(u, **opts)
+            v = batch_row if batch_row is not None else cirq.kak_vector(ug, **opts)
             v = [float(c) for c in np.asarray(v).reshape(3)]
         except Exception as e:
             return raised(e)
@@ -931,7 +1056,10 @@ def run_class(ctx, cirq, mods, conv, checks, routine, opts, name, u, hint, batch
         if abs(z) <= 1e-6:
             return
         try:
-            d = np.asarray(cirq.linalg.extract_right_diag(u), dtype=complex)
+            d = np.asarray(cirq.linalg.extract_right_diag(ug), dtype=complex)
+            if not np.all(np.isfinite(d)):
+                ctx.violation(f'{routine}:form:{scls}', f'{stream} on {name}: the returned matrix has non-finite entries: diag = {np.diag(d).tolist()}', rep)
+                return
             ud = u @ d
             k2, (x2, y2, z2), rec2, cert2 = kak_cert(cirq, ud)
         except Exception as e:
@@ -942,20 +1070,32 @@ def run_class(ctx, cirq, mods, conv, checks, routine, opts, name, u, hint, batch
                                f'(negb (fcll_close {fl(1e-7)} {rec2} (mmul FOps {um} {dm}) && {cert2}) || PrimFloat.leb (PrimFloat.abs {fl(z2)}) {fl(1e-7)})',
                        f'{stream} on {name} (3-CNOT unitary, coefficients ({x!r}, {y!r}, {z!r})): D = diag{[complex(c) for c in np.diag(d)]} is not a diagonal unitary, or U @ D still needs three CNOT: '
                        f'its validated KAK coefficients are ({x2!r}, {y2!r}, {z2!r}) with |z| > 1e-7',
-                       dict(rep, signature=f'{routine}:class:{cls(name)}')))
+                       dict(rep, signature=f'{routine}:class:{scls}')))
     elif routine == 'two_qubit_matrix_to_cz_isometry':
         q = cirq.LineQubit.range(2)
         try:
-            ops = cirq.two_qubit_matrix_to_cz_isometry(q[0], q[1], u, **opts)
+            ops = cirq.two_qubit_matrix_to_cz_isometry(q[0], q[1], ug, **opts)
         except Exception as e:
             return raised(e)
         partial = opts['allow_partial_czs']
         add_ops_checks(ctx, conv, checks, routine, opts, name, u, ops, q, opts['atol'], True,
                        (2, False, is_cz(partial), 'at most 2 two-qubit gates, all CZ' + (' powers' if partial else ' (no partial CZ)')), nt,
                        extra=dict(kind='class', hint=rep['hint']),
-                       cmp=('isometry_phase_f', 'the first two columns (first qubit in |0>) of the unitary of the returned operations differ from those of the input'))
+                       cmp=('isometry_phase_f', 'the first two columns (first qubit in |0>) of the unitary of the returned operations differ from those of the input'),
+                       sig_class=scls)
     else:
         raise KeyError(routine)
+
+
+REAL_NEG_DET_CLASS = 'real-dtype-input-with-negative-determinant'
+
+
+def real_neg_det_class(a):
+    """A class of inputs (a property of the array handed over): real or integer dtype and determinant < 0 (CNOT, CZ, SWAP, reflections ... written without `+0j`)."""
+    a = np.asarray(a)
+    if a.ndim == 2 and a.shape[0] == a.shape[1] and not np.iscomplexobj(a) and np.linalg.det(a) < 0:
+        return REAL_NEG_DET_CLASS
+    return None
 
 
 NEAR_FACE_CLASS = 'between-atol-and-1e-5-below-face-x=pi/4:z!=0'
@@ -1120,6 +1260,134 @@ def known_syc_stream(ctx, cirq, mods, conv, checks, scale=1):
 
 
 # =====================================================================================================
+# Stream 3e: the symbolic synthesis into sqrt-iSWAP (cirq.parameterized_2q_op_to_sqrt_iswap_operations), resolved value by value
+# =====================================================================================================
+ROUTINES.update({
+    'parameterized_2q_op_to_sqrt_iswap_operations': 'docstring: for a parameterized CZPowGate / SwapPowGate / ISwapPowGate / FSimGate operation "a parameterized cirq.OP_TREE implementing `op` using '
+                                                    'only cirq.SQRT_ISWAP (or cirq.SQRT_ISWAP_INV) and parameterized single qubit rotations", None or NotImplemented for other gates. A parameterized '
+                                                    'tree stands for its resolutions: for every value of a fixed grid (exponents +-1, +-0.5, +-0.25, +-1.5, +-2, +-3, 0, 1e-9, +-1 +- 1e-10, generic and seeded '
+                                                    'ones; FSim angles 0, +-pi/2, pi/4, +-pi, 3pi, pi/6, generic) the resolved operations must have the unitary of the resolved gate (reference: the gate of the '
+                                                    'shared vocabulary evaluated inside Coq from the value) up to phase (an operation list), no tolerance stated: 1e-8 x 10 = 1e-7; two-qubit gates only '
+                                                    'SQRT_ISWAP (SQRT_ISWAP_INV with use_sqrt_iswap_inv), at most 4 (the helpers document two per controlled-phase / iSWAP part).',
+})
+PARAM_ANGLES = [('0', 0.0), ('pi/2', math.pi / 2), ('-pi/2', -math.pi / 2), ('pi/4', math.pi / 4), ('pi', math.pi), ('-pi', -math.pi), ('3pi', 3 * math.pi), ('pi/6', math.pi / 6), ('0.3', 0.3), ('-2.1', -2.1),
+                ('pi+1e-10', math.pi + 1e-10)]
+ODD_CPHASE_CLASS = 'controlled-phase-exponent-within-1e-9-of-an-odd-integer'
+
+
+def cphase_exponent(spec):
+    """The exponent of the controlled-phase part of the gate (CZ**t: t; SWAP**t = iSWAP-like part . CZ**-t; FSim(theta, phi): -phi/pi), or None."""
+    f = spec['fam']
+    if f == 'CZPow':
+        return spec['e']
+    if f == 'SwapPow':
+        return -spec['e']
+    if f == 'FSim' and spec['phi'] != 0.0:
+        return -spec['phi'] / math.pi
+    return None
+
+
+def param_class(spec):
+    c = cphase_exponent(spec)
+    if c is not None and abs((c % 2) - 1) < 1e-9:
+        return ODD_CPHASE_CLASS
+    return known_name(spec)
+
+
+PARAM_EXPS_QUICK = [1.0, -1.0, 3.0, 0.5, -0.5, 0.25, 1.5, 2.0, 0.0, 1e-9, 1 + 1e-10, 1 - 1e-10, 0.37]
+
+
+def param_specs(ctx, scale=1):
+    """Quick tier: a reduced grid (resolving one sympy circuit costs ~0.1 s): the special exponents with both sqrt-iSWAP flavours at +-1, the others alternating;
+    thorough tier: the whole exponent grid of the Sycamore dispatch stream, both flavours at every special value, all angle pairs."""
+    quick = ctx.tier == 'quick'
+    out = []
+    k = 0
+    for f in ('CZPow', 'SwapPow', 'ISwapPow'):
+        grid = (PARAM_EXPS_QUICK if f != 'ISwapPow' else PARAM_EXPS_QUICK[:9]) if quick else KNOWN_EXPS
+        for e in grid + [round(ctx.rng.uniform(-4, 4), 6) for _ in range(1 if quick else 2 * scale)] + [float(ctx.rng.choice([-5, -3, -1, 1, 3, 5, 7]))]:
+            k += 1
+            special = abs(abs(e) % 1) < 1e-7 or abs(abs(e) % 1 - 1) < 1e-7 or abs(e) in (0.5, 0.25)
+            both = abs(e) == 1.0 if quick else special
+            for inv in ((False, True) if both and f != 'ISwapPow' else (k % 2 == 0,)):
+                out.append(dict(fam=f, e=float(e), s=0.0, order=[0, 1] if k % 3 else [1, 0], inv=inv))
+    k = 0
+    for tn, th in PARAM_ANGLES[:9]:
+        for pn, ph in PARAM_ANGLES:
+            k += 1
+            if quick:
+                pick = (tn == '0.3' and pn in ('0', 'pi', '-pi', '3pi', 'pi/6', 'pi/2', 'pi+1e-10')) or (pn == '0.3' and tn in ('0', 'pi/2', '-pi/2', 'pi')) or (tn, pn) in (('pi/2', 'pi/6'), ('pi/2', 'pi'), ('0', 'pi'), ('pi/4', '-pi'))
+            else:
+                pick = tn in ('0', 'pi/2', '0.3') or pn in ('0', 'pi', '-pi', '3pi', 'pi/6') or k % 4 == 0
+            if pick:
+                out.append(dict(fam='FSim', theta=th, phi=ph, order=[0, 1] if k % 3 else [1, 0], inv=k % 2 == 0))
+    for _ in range(1 if quick else 3 * scale):
+        out.append(dict(fam='FSim', theta=round(ctx.rng.uniform(-3.2, 3.2), 6), phi=round(ctx.rng.uniform(-3.2, 3.2), 6), order=[0, 1], inv=ctx.rng.random() < 0.5))
+    out += [dict(fam='XXPow', e=0.5, s=0.0, order=[0, 1], inv=False), dict(fam='ZZPow', e=1.0, s=0.0, order=[0, 1], inv=True)]        # outside the documented list
+    return out
+
+
+PARAM_TREES = {}
+
+
+def run_param(ctx, cirq, mods, conv, checks, spec):
+    import sympy
+    routine = 'parameterized_2q_op_to_sqrt_iswap_operations'
+    q = cirq.LineQubit.range(2)
+    f, inv, order = spec['fam'], bool(spec.get('inv')), spec.get('order', [0, 1])
+    name = known_name(spec)
+    opts = dict(use_sqrt_iswap_inv=inv)
+    t, th, ph = sympy.Symbol('t'), sympy.Symbol('theta'), sympy.Symbol('phi')
+    if f == 'FSim':
+        g = gates.G(f, dict(theta=spec['theta'], phi=spec['phi']), (2, 2))
+        sym_gate, values = cirq.FSimGate(th, ph), {'theta': spec['theta'], 'phi': spec['phi']}
+    else:
+        g = gates.G(f, dict(e=spec['e'], s=0.0), (2, 2))
+        sym_gate, values = type(g.cirq_gate(cirq, mods))(exponent=t), {'t': spec['e']}
+    rep = dict(kind='param', routine=routine, input_class=name, spec=spec, opts=opts)
+    sig_cls = param_class(spec)
+    documented = f in ('CZPow', 'SwapPow', 'ISwapPow', 'FSim')
+    key = (f, inv, tuple(order))
+    try:
+        if key not in PARAM_TREES:
+            tree = cirq.parameterized_2q_op_to_sqrt_iswap_operations(sym_gate.on(q[order[0]], q[order[1]]), use_sqrt_iswap_inv=inv)
+            PARAM_TREES[key] = None if tree is None or tree is NotImplemented else cirq.Circuit(tree)
+        circ = PARAM_TREES[key]
+    except Exception as e:
+        ctx.violation(f'{routine}:raises:symbolic:{f}', f'{routine}({sym_gate!r}, {opts}) raised {type(e).__name__}: {e}', rep)
+        return
+    if circ is None:
+        ctx.count(routine + ':None', [f, inv], True, sample=dict(gate=repr(sym_gate), returned='None / NotImplemented'))
+        if documented:
+            ctx.violation(f'{routine}:form:{f}', f'{routine}({sym_gate!r}) returned None / NotImplemented although the gate type belongs to the documented list', rep)
+        return
+    uterm = f'(circ_unitary FOps [2; 2]%nat [({g.coq()}, {gates.nlist(order)})])'
+    u = numpy_unitary(cirq, [g.cirq_gate(cirq, mods).on(q[order[0]], q[order[1]])], q)
+    try:
+        ops = list(cirq.resolve_parameters(circ, values).all_operations())
+        bad = [o for o in ops if cirq.is_parameterized(o) or not cirq.has_unitary(o)]
+        if bad:
+            raise ValueError(f'resolved operation {bad[0]!r} has no unitary')
+    except Exception as e:
+        ctx.count(routine + ':raises-when-resolved', [name, inv], True)
+        ctx.violation(f'{routine}:raises:{sig_cls}', f'{routine}({sym_gate!r}, {opts}) resolved at {values}: {type(e).__name__}: {str(e)[:160]} (the resolved gate is {name}; '
+                      f'its controlled-phase exponent is {cphase_exponent(spec)!r})', rep)
+        return
+    ex = -0.5 if inv else 0.5
+    native = lambda op: isinstance(op.gate, cirq.ISwapPowGate) and abs(float(op.gate.exponent) - ex) < 1e-12
+    add_ops_checks(ctx, conv, checks, routine, opts, name, u, ops, q, 1e-7, True,
+                   (4, False, native, 'only SQRT_ISWAP' + ('_INV' if inv else '') + ' as two-qubit gate, at most 4'), True, extra=dict(kind='param', spec=spec), uterm=uterm)
+
+
+def param_sqrt_iswap_stream(ctx, cirq, mods, conv, checks, scale=1):
+    PARAM_TREES.clear()
+    for k, spec in enumerate(param_specs(ctx, scale)):
+        run_param(ctx, cirq, mods, conv, checks, spec)
+        if k % 50 == 0:
+            tick()
+
+
+# =====================================================================================================
 # Stream 3d: the heuristic tabulation decomposition — two_qubit_gate_product_tabulation / TwoQubitGateTabulation.compile_two_qubit_gate
 # =====================================================================================================
 ROUTINES.update({
@@ -1188,7 +1456,7 @@ def run_tab(ctx, cirq, mods, conv, checks, tspec, tab, name, u, hint=None, syc=F
     rep = dict(kind='tab', routine=routine, opts=opts, tab=tspec, input_class=name, target=cmat(u), hint=list(hint) if hint is not None else None, syc=int(syc))
     scls = cls(name.split('#')[0])
     try:
-        r = tab.compile_two_qubit_gate(u)
+        r = tab.compile_two_qubit_gate(given(name, u))
         lus = [(np.asarray(a, dtype=complex), np.asarray(b, dtype=complex)) for a, b in r.local_unitaries]
         actual = np.asarray(r.actual_gate, dtype=complex)
         success = bool(r.success)
@@ -1389,6 +1657,8 @@ ROUTINES.update({
     'single_qubit_matrix_to_phased_x_z': 'docstring: a PhasedX and a Z gate, either omitted when not needed: at most 2 gates; residual <= atol + 2e-8 up to phase.',
     'single_qubit_matrix_to_phxz': 'docstring: one PhasedXZGate, or None if the matrix is close to identity (trace distance <= atol); residual <= atol + 2e-8 up to phase.',
     'PhasedXZGate.from_matrix': 'no docstring: a PhasedXZGate with the same unitary up to phase; 1e-7.',
+    'single_qubit_op_to_framed_phase_form': 'docstring: "Decomposes a 2x2 unitary M into U^-1 * diag(1, r) * U * diag(g, g)", U a 2x2 unitary, r and g complex phase factors: compared EXACTLY '
+                                            '(g is returned); |r| = |g| = 1; no tolerance stated: 1e-8 x 10 = 1e-7.',
 })
 
 
@@ -1418,8 +1688,11 @@ def one_qubit_inputs(ctx, cirq, n_random):
         out.append((name, np.asarray(u, dtype=complex)))
         r = name_rng('1q:' + name)
         out.append((name + '*phase', cmath.exp(1j * r.uniform(0, 6.28)) * np.asarray(u, dtype=complex)))
+    out += real_dtype_1q()                          # real matrices handed over as float64 / int64 arrays (see `given`)
     for _ in range(n_random):
         out.append(('random:haar', gates.random_unitary(rng, 2)))
+    for _ in range(max(2, n_random // 10)):
+        out.append((REAL_DTYPE + 'random:rot', np.asarray(rot2(rng.uniform(-math.pi, math.pi)), dtype=complex)))
     return out
 
 
@@ -1428,6 +1701,7 @@ def run_1q(ctx, cirq, mods, conv, checks, routine, opts, name, u):
     nt = 'identity' not in name
     rep = dict(kind='1q', routine=routine, opts=opts, input_class=name, matrix=cmat(u))
     atol = opts.get('atol', 0)
+    ug = given(name, u)
     tol = atol + 2e-8          # sqrt(binary64 epsilon) = 1.5e-8: identity tests through cos^2 cannot resolve smaller angles
 
     def raised(e):
@@ -1439,11 +1713,11 @@ def run_1q(ctx, cirq, mods, conv, checks, routine, opts, name, u):
 
     try:
         if routine == 'deconstruct_single_qubit_matrix_into_angles':
-            p0, p1, p2 = (float(x) for x in cirq.deconstruct_single_qubit_matrix_into_angles(u))
+            p0, p1, p2 = (float(x) for x in cirq.deconstruct_single_qubit_matrix_into_angles(ug))
             ops = [(cirq.Z ** (p0 / math.pi)).on(q[0]), (cirq.Y ** (p1 / math.pi)).on(q[0]), (cirq.Z ** (p2 / math.pi)).on(q[0])]
             add_ops_checks(ctx, conv, checks, routine, opts, name, u, ops, q, 1e-7, True, None, nt)
         elif routine == 'axis_angle':
-            a = cirq.axis_angle(u)
+            a = cirq.axis_angle(ug)
             x, y, z = (float(v) for v in a.axis)
             th = float(a.angle)
             c, sn = math.cos(-th / 2), math.sin(-th / 2)
@@ -1458,30 +1732,43 @@ def run_1q(ctx, cirq, mods, conv, checks, routine, opts, name, u):
                                dict(rep, signature=f'axis_angle:canonical:{cls(name)}')))
                 ctx.count(routine + ':canonical', [name, rep['matrix']], nt)
         elif routine == 'single_qubit_matrix_to_pauli_rotations':
-            rots = cirq.single_qubit_matrix_to_pauli_rotations(u, atol)
+            rots = cirq.single_qubit_matrix_to_pauli_rotations(ug, atol)
             ops = [(p ** float(ht)).on(q[0]) for p, ht in rots]
             count_le(ops, 3, 'more than 3 rotations')
             add_ops_checks(ctx, conv, checks, routine, opts, name, u, ops, q, tol, True, None, nt)
         elif routine == 'single_qubit_matrix_to_gates':
-            ops = [g.on(q[0]) for g in cirq.single_qubit_matrix_to_gates(u, atol)]
+            ops = [g.on(q[0]) for g in cirq.single_qubit_matrix_to_gates(ug, atol)]
             count_le(ops, 3, 'more than 3 gates')
             add_ops_checks(ctx, conv, checks, routine, opts, name, u, ops, q, tol, True, None, nt)
         elif routine == 'single_qubit_matrix_to_phased_x_z':
-            gs = cirq.single_qubit_matrix_to_phased_x_z(u, atol)
+            gs = cirq.single_qubit_matrix_to_phased_x_z(ug, atol)
             ops = [g.on(q[0]) for g in gs]
             count_le(ops, 2, 'more than a PhasedX and a Z gate')
             if len(gs) == 2 and not isinstance(gs[1], cirq.ZPowGate):
                 ctx.violation(f'{routine}:form:{cls(name)}', f'{routine} on {name}: second gate {gs[1]!r} is not a Z gate', rep)
             add_ops_checks(ctx, conv, checks, routine, opts, name, u, ops, q, tol, True, None, nt)
         elif routine == 'single_qubit_matrix_to_phxz':
-            g = cirq.single_qubit_matrix_to_phxz(u, atol)
+            g = cirq.single_qubit_matrix_to_phxz(ug, atol)
             if g is not None and not isinstance(g, cirq.PhasedXZGate):
                 ctx.violation(f'{routine}:form:{cls(name)}', f'{routine} on {name}: returned {g!r}', rep)
                 return
             add_ops_checks(ctx, conv, checks, routine, opts, name, u, [] if g is None else [g.on(q[0])], q, tol, True, None, nt)
         elif routine == 'PhasedXZGate.from_matrix':
-            g = cirq.PhasedXZGate.from_matrix(u)
+            g = cirq.PhasedXZGate.from_matrix(ug)
             add_ops_checks(ctx, conv, checks, routine, opts, name, u, [g.on(q[0])], q, 1e-7, True, None, nt)
+        elif routine == 'single_qubit_op_to_framed_phase_form':
+            U, r, g = cirq.single_qubit_op_to_framed_phase_form(ug)
+            U, r, g = np.asarray(U, dtype=complex), complex(r), complex(g)
+            if U.shape != (2, 2) or not (np.all(np.isfinite(U)) and np.isfinite(r) and np.isfinite(g)):
+                ctx.violation(f'{routine}:form:{cls(name)}', f'{routine} on {name}: returned U = {U.tolist()}, r = {r}, g = {g}; a 2x2 unitary and two finite phase factors with U^-1 diag(1, r) U diag(g, g) = M are documented', rep)
+                return
+            ctx.count(routine, [name, rep['matrix']], nt, sample=dict(input_class=name, r=str(r), g=str(g)))
+            um = gates.fmat(U)
+            res = float(np.max(np.abs(g * U.conj().T @ np.diag([1, r]) @ U - u)))
+            checks.append((routine, f'fcll_close {fl(1e-7)} (mscale FOps {gates.fc(g)} (mmul FOps (mdagger FOps {um}) (mmul FOps (fmdiag {gates.fvec([1, r])}) {um}))) {gates.fmat(u)} && '
+                           f'is_unitary_f {fl(1e-7)} 2 {um} && f_close {fl(1e-7)} {fl(abs(r))} 1 && f_close {fl(1e-7)} {fl(abs(g))} 1',
+                           f'{routine} on {name}: U^-1 diag(1, r) U diag(g, g) with r={r}, g={g} differs from the input by more than 1e-7 (numpy estimate of the residual: {res:.3g}), '
+                           f'or U is not unitary, or |r|, |g| != 1', dict(rep, signature=f'{routine}:reconstruct:{cls(name)}')))
         else:
             raise KeyError(routine)
     except KeyError:
@@ -1491,13 +1778,13 @@ def run_1q(ctx, cirq, mods, conv, checks, routine, opts, name, u):
 
 
 ROUTINES_1Q = ['deconstruct_single_qubit_matrix_into_angles', 'axis_angle', 'single_qubit_matrix_to_pauli_rotations', 'single_qubit_matrix_to_gates',
-               'single_qubit_matrix_to_phased_x_z', 'single_qubit_matrix_to_phxz', 'PhasedXZGate.from_matrix']
+               'single_qubit_matrix_to_phased_x_z', 'single_qubit_matrix_to_phxz', 'PhasedXZGate.from_matrix', 'single_qubit_op_to_framed_phase_form']
 
 
 def one_qubit_stream(ctx, cirq, mods, conv, inputs, checks):
     for k, (name, u) in enumerate(inputs):
         for routine in ROUTINES_1Q:
-            if routine.startswith('single_qubit'):
+            if routine.startswith('single_qubit_matrix'):
                 atols = [0, 1e-8] if k % 3 else [0, 1e-6]
                 for atol in atols:
                     run_1q(ctx, cirq, mods, conv, checks, routine, dict(atol=atol), name, u)
@@ -1517,9 +1804,11 @@ ROUTINES.update({
     'diagonalize_real_symmetric_and_sorted_diagonal_matrices': 'docstring: orthogonal P with P.T @ symmetric @ P diagonal and P.T @ diagonal @ P = diagonal (up to tolerance); 1e-7.',
     'map_eigenvalues': 'docstring: f(M) = sum_k f(a_k)|v_k><v_k|; checked with f = square against M @ M and f = identity against M; atol 1e-8 x 10 = 1e-7.',
     'unitary_eig': 'docstring: eigenvalues and a unitary V of eigenvector columns (V diag(vals) V^dagger = matrix); atol 1e-8 x 10 = 1e-7.',
+    'to_special': 'docstring: "Converts a unitary matrix to a special unitary matrix": u * det(u)^(-1/d), i.e. a phase multiple of u with determinant 1 (what num_cnots_required and '
+                  'extract_right_diag start from); no tolerance stated: 1e-7.',
 })
 ROUTINES_LA = ['kron_factor_4x4_to_2x2s', 'so4_to_magic_su2s', 'bidiagonalize_unitary_with_special_orthogonals', 'bidiagonalize_real_matrix_pair_with_symmetric_products',
-               'diagonalize_real_symmetric_matrix', 'diagonalize_real_symmetric_and_sorted_diagonal_matrices', 'map_eigenvalues', 'unitary_eig']
+               'diagonalize_real_symmetric_matrix', 'diagonalize_real_symmetric_and_sorted_diagonal_matrices', 'map_eigenvalues', 'unitary_eig', 'to_special']
 MAGIC = np.array([[1, 0, 0, 1j], [0, 1j, 1, 0], [0, 1j, -1, 0], [1, 0, 0, -1j]]) * math.sqrt(0.5)
 
 
@@ -1530,18 +1819,21 @@ def offdiag_zero(expr, n, tol):
 def run_la(ctx, cirq, checks, routine, name, m, m2=None):
     """m (and m2): the input matrices, complex arrays."""
     m = np.asarray(m, dtype=complex)
+    mg = given(name, m)
     n = m.shape[0]
     rep = dict(kind='linalg', routine=routine, input_class=name, matrix=cmat(m), matrix2=cmat(m2) if m2 is not None else None)
     nt = 'identity' not in name
     T7 = fl(1e-7)
 
+    scls = (real_neg_det_class(mg) if routine == 'to_special' else None) or cls(name)
+
     def add(suffix, expr, what):
-        checks.append((routine + suffix, expr, f'{routine} on {name}: {what}', dict(rep, signature=f'{routine}{suffix or ":reconstruct"}:{cls(name)}')))
+        checks.append((routine + suffix, expr, f'{routine} on {name}: {what}', dict(rep, signature=f'{routine}{suffix or ":reconstruct"}:{scls}')))
         ctx.count(routine + suffix, [name, rep['matrix'], rep['matrix2']], nt, sample=dict(input_class=name, n=n) if not suffix else None)
 
     try:
         if routine == 'kron_factor_4x4_to_2x2s':
-            g, f1, f2 = cirq.kron_factor_4x4_to_2x2s(m)
+            g, f1, f2 = cirq.kron_factor_4x4_to_2x2s(mg)
             add('', f'fcll_allclose {fl(1e-5)} {fl(1e-8)} {gates.fmat(m)} (mscale FOps {gates.fc(g)} (kron FOps {gates.fmat(f1)} {gates.fmat(f2)}))',
                 'g*kron(f1,f2) differs from the matrix by more than atol + rtol*|entry|')
             add(':form', f'det_is_one_f {T7} 2 {gates.fmat(f1)} && det_is_one_f {T7} 2 {gates.fmat(f2)}', f'a factor is not of unit determinant: det f1={np.linalg.det(f1)}, det f2={np.linalg.det(f2)}')
@@ -1550,7 +1842,7 @@ def run_la(ctx, cirq, checks, routine, name, m, m2=None):
             add('', f'fcll_allclose {fl(1e-5)} {fl(1e-8)} {gates.fmat(np.real(m))} (magic_conj {gates.fmat(a)} {gates.fmat(b)})', 'Mag^dagger kron(A,B) Mag differs from the matrix by more than atol + rtol*|entry|')
             add(':form', f'is_special_unitary_f {T7} 2 {gates.fmat(a)} && is_special_unitary_f {T7} 2 {gates.fmat(b)}', 'A or B is not special unitary')
         elif routine == 'bidiagonalize_unitary_with_special_orthogonals':
-            L, d, R = cirq.bidiagonalize_unitary_with_special_orthogonals(m)
+            L, d, R = cirq.bidiagonalize_unitary_with_special_orthogonals(mg)
             add('', f'fcll_close {T7} (mmul FOps {gates.fmat(L)} (mmul FOps {gates.fmat(m)} {gates.fmat(R)})) (fmdiag {gates.fvec(d)})',
                 f'L @ mat @ R differs from diag(d) by more than 1e-7 (numpy: {float(np.max(np.abs(L @ m @ R - np.diag(d)))):.3g})')
             add(':form', f'is_special_orthogonal_f {T7} {n} {gates.fmat(L)} && is_special_orthogonal_f {T7} {n} {gates.fmat(R)}', 'L or R is not special orthogonal')
@@ -1574,20 +1866,28 @@ def run_la(ctx, cirq, checks, routine, name, m, m2=None):
                     f'fcll_allclose {fl(1e-5)} {fl(1e-8)} (mmul FOps {pt} (mmul FOps {gates.fmat(dm)} {gates.fmat(P)})) {gates.fmat(dm)}',
                 'P.T @ symmetric @ P is not diagonal, P is not orthogonal, or P.T @ diagonal @ P differs from diagonal')
         elif routine == 'map_eigenvalues':
-            sq = cirq.map_eigenvalues(m, lambda v: v * v)
-            idm = cirq.map_eigenvalues(m, lambda v: v)
+            sq = cirq.map_eigenvalues(mg, lambda v: v * v)
+            idm = cirq.map_eigenvalues(mg, lambda v: v)
             add('', f'fcll_close {T7} {gates.fmat(sq)} (mmul FOps {gates.fmat(m)} {gates.fmat(m)}) && fcll_close {T7} {gates.fmat(idm)} {gates.fmat(m)}',
                 'map_eigenvalues(M, square) differs from M @ M, or map_eigenvalues(M, identity) from M, by more than 1e-7')
         elif routine == 'unitary_eig':
-            vals, V = cirq.unitary_eig(m)
+            vals, V = cirq.unitary_eig(mg)
             add('', f'fcll_close {T7} (mmul FOps {gates.fmat(V)} (mmul FOps (fmdiag {gates.fvec(vals)}) (mdagger FOps {gates.fmat(V)}))) {gates.fmat(m)} && is_unitary_f {T7} {n} {gates.fmat(V)}',
                 'V diag(vals) V^dagger differs from the matrix by more than 1e-7 or V is not unitary')
+        elif routine == 'to_special':
+            sp = np.asarray(cirq.to_special(mg), dtype=complex)
+            if sp.shape != m.shape or not np.all(np.isfinite(sp)):
+                ctx.violation(f'{routine}:form:{scls}', f'{routine} on {name} (dtype {mg.dtype}, det {np.linalg.det(mg)!r}): the result has shape {sp.shape} and entries '
+                              f'{sp.tolist() if n <= 2 else sp[0].tolist()}: not a finite matrix of the same shape', rep)
+                return
+            add('', f'fcll_close_phase {T7} {gates.fmat(sp)} {gates.fmat(m)} && det_is_one_f {T7} {n} {gates.fmat(sp)}',
+                f'the result is not a phase multiple of the input with determinant 1 (numpy: det = {np.linalg.det(sp)!r})')
         else:
             raise KeyError(routine)
     except KeyError:
         raise
     except Exception as e:
-        ctx.violation(f'{routine}:raises:{cls(name)}', f'{routine} raised {type(e).__name__}: {e} on {name}', rep)
+        ctx.violation(f'{routine}:raises:{scls}', f'{routine} raised {type(e).__name__}: {e} on {name}', rep)
 
 
 def su2(u):
@@ -1627,6 +1927,18 @@ def linalg_stream(ctx, cirq, inputs1, inputs2, checks):
     for name, u in sel[::2]:
         run_la(ctx, cirq, checks, 'map_eigenvalues', '1q:' + name, u)
         run_la(ctx, cirq, checks, 'unitary_eig', '1q:' + name, u)
+    # real normal matrices handed over as float64 / int64 arrays (orthogonal matrices with non-real spectrum, skew-symmetric, symmetric; sizes 1..8)
+    for name, u in real_normal_inputs(rng) + real_dtype_1q() + real_dtype_2q() + real_dtype_3q():
+        run_la(ctx, cirq, checks, 'map_eigenvalues', name, u)
+        run_la(ctx, cirq, checks, 'unitary_eig', name, u)
+    # to_special: unitaries of size 2, 4, 8 (complex and real dtype, either sign of the determinant)
+    for name, u in sel[::3] + [(n_, u_) for n_, u_, _ in twos[::6]] + real_dtype_1q() + real_dtype_2q() + real_dtype_3q():
+        if u.shape[0] in (2, 4, 8):
+            run_la(ctx, cirq, checks, 'to_special', name, u)
+    for name, u in real_dtype_2q():
+        run_la(ctx, cirq, checks, 'bidiagonalize_unitary_with_special_orthogonals', name, u)
+        if '(x)' in name:
+            run_la(ctx, cirq, checks, 'kron_factor_4x4_to_2x2s', name, u)
     # real symmetric matrices with degenerate / near-degenerate spectra
     for k in range(16):
         n = [2, 3, 4, 4][k % 4]
@@ -1702,10 +2014,10 @@ def run_nq(ctx, cirq, mods, conv, checks, routine, opts, name, u):
     pre = dict(sig_prefix='order=' + ','.join(map(str, order)) + ':') if order != sorted(order) else None
     try:
         if routine == 'three_qubit_matrix_to_operations':
-            ops = cirq.three_qubit_matrix_to_operations(q[0], q[1], q[2], u)
+            ops = cirq.three_qubit_matrix_to_operations(q[0], q[1], q[2], given(name, u))
             add_ops_checks(ctx, conv, checks, routine, opts, name, u, ops, q, 1e-8, True, (20, False, is_cx_or_cz(cirq), 'at most 20 CZ/CNOT and no other multi-qubit gate'), nt, extra=pre)
         elif routine == 'quantum_shannon_decomposition':
-            ops = list(cirq.quantum_shannon_decomposition(q, u))
+            ops = list(cirq.quantum_shannon_decomposition(q, given(name, u)))
             add_ops_checks(ctx, conv, checks, routine, opts, name, u, ops, q, 1e-7, False,
                            (shende_count(n), False, lambda op: len(op.qubits) == 2 and (isinstance(op.gate, cirq.CZPowGate) or is_cx_or_cz(cirq)(op)),
                             f'at most {shende_count(n)} CZ-family/CNOT gates for {n} qubits and no other multi-qubit gate'), nt, extra=pre,
@@ -1718,7 +2030,7 @@ def run_nq(ctx, cirq, mods, conv, checks, routine, opts, name, u):
         sup = unitary_support(u)
         # a failure on a unitary that leaves some qubits alone is reported under the support (a property of the input matrix), not the corpus name
         where = f'{(pre or {}).get("sig_prefix", "")}{cls(name)}' if len(sup) == n else f'{type(e).__name__}:{n}-qubit-input-acting-only-on-qubits{sup}'
-        ctx.violation(f'{routine}:raises:{where}', f'{routine}({[str(x) for x in q]}, u) raised {type(e).__name__}: {e} on {name}'
+        ctx.violation(f'{routine}:raises:{where}', f'{routine}({[str(x) for x in q]}, u) raised {type(e).__name__}: {(str(e).splitlines() or [""])[0][:160]} on {name}'
                       + ('' if len(sup) == n else f' (the matrix acts as the identity on all but positions {sup} of `qubits`)'), rep)
 
 
@@ -1729,23 +2041,64 @@ def controlled_matrix(u, nc, nf=0):
     return np.kron(m, np.eye(2 ** nf))
 
 
+DENSE_QUBITS = 5          # up to here the dense reference semantics (Sim/Ref.circ_unitary) is evaluated as well
+
+
 def run_ctrl(ctx, cirq, mods, conv, checks, routine, opts, name, u):
+    """One multi-controlled synthesis: `controls` controls, one target, `free` borrowed qubits (decompose_multi_controlled_x only).
+    Every shape is judged in the sparse reference semantics (Xform/CtrlSynth.v: every basis state through the returned operations against the
+    column of "u on the target iff all controls are 1, identity elsewhere"), shapes of at most DENSE_QUBITS qubits also in the dense one, and
+    there the two semantics are compared with each other."""
     nc, nf = opts['controls'], opts.get('free', 0)
     cs = cirq.LineQubit.range(nc)
     t = cirq.LineQubit(nc)
     fr = [cirq.LineQubit(nc + 1 + i) for i in range(nf)]
     allq = cs + [t] + fr
+    n = len(allq)
     rep = dict(kind='ctrl', routine=routine, opts=opts, input_class=name, matrix=cmat(u))
     native = lambda op: (isinstance(op.gate, cirq.CXPowGate) and len(op.qubits) == 2 or isinstance(op.gate, cirq.CCXPowGate) and len(op.qubits) == 3) and abs(float(op.gate.exponent) - 1) < 1e-12
+    sig = f'c{nc}f{nf}:'
     try:
         if routine == 'decompose_multi_controlled_rotation':
-            ops = cirq.decompose_multi_controlled_rotation(np.asarray(u), cs, t)
+            ops = cirq.decompose_multi_controlled_rotation(np.asarray(given(name, u)), cs, t)
         else:
             ops = cirq.decompose_multi_controlled_x(cs, t, fr)
-        add_ops_checks(ctx, conv, checks, routine, opts, name, controlled_matrix(u, nc, nf), ops, allq, 1e-7, False,
-                       (10 ** 6, False, native, 'exclusively 1-qubit, CNOT and CCNOT gates'), True, extra=dict(sig_prefix=f'c{nc}f{nf}:'))
+        ops = list(cirq.flatten_to_ops(ops))
+        if n <= DENSE_QUBITS:
+            add_ops_checks(ctx, conv, checks, routine, opts, name, controlled_matrix(u, nc, nf), ops, allq, 1e-7, False,
+                           (10 ** 6, False, native, 'exclusively 1-qubit, CNOT and CCNOT gates'), True, extra=dict(sig_prefix=sig))
     except Exception as e:
-        ctx.violation(f'{routine}:raises:c{nc}f{nf}:{cls(name)}', f'{routine}({opts}) raised {type(e).__name__}: {e} on {name}', rep)
+        ctx.violation(f'{routine}:raises:{sig}{cls(name)}', f'{routine}({opts}) raised {type(e).__name__}: {e} on {name}', rep)
+        return
+    okey = ','.join(f'{k}={v}' for k, v in sorted(opts.items()))
+    stream = f'{routine}[{okey}]:every-basis-state'
+    try:
+        sterm = sparse_term(conv, ops, allq)
+    except ValueError as e:
+        ctx.violation(f'{routine}:form:{sig}{cls(name)}', f'{routine}({opts}) on {name}: exclusively 1-qubit, CNOT and CCNOT gates are promised: {e}', rep)
+        return
+    ctx.count(stream, [name, rep['matrix']], True, sample=dict(input_class=name, qubits=n, n_ops=len(ops), operations=[str(o) for o in ops[:8]]))
+    cbits = '[' + '; '.join(f'{n - 1 - k}%N' for k in range(nc)) + ']'
+
+    def what():
+        try:
+            res = residual(numpy_unitary(cirq, ops, allq), controlled_matrix(u, nc, nf), False)
+        except Exception:
+            res = None
+        return (f'{routine}({okey}) on {name}: the {len(ops)} returned operations on {n} qubits, run on every basis state, are not the gate "the matrix on the target iff all {nc} controls '
+                f'are 1, identity on the {nf} other qubits (which end in their initial state)": an amplitude differs by more than 1e-7 (numpy estimate of the residual: {res})')
+    c = (stream, f'ctrl_synth_f {fl(1e-7)} {n} {cbits} {n - 1 - nc}%N {gates.fmat(u)} {sterm}', what, dict(rep, signature=f'{routine}:reconstruct:{sig}{cls(name)}'))
+    if n <= DENSE_QUBITS:
+        checks.append(c)
+        try:
+            checks.append((f'{routine}:sparse-vs-dense-semantics', f'ctrl_cross_f {fl(1e-9)} {n} {sterm} {gates.nlist([2] * n)} {conv.ops(ops, allq)}',
+                           f'{routine}({okey}) on {name}: the sparse semantics (Xform/CtrlSynth.v) and the dense reference semantics (Sim/Ref.v) give different matrices for the same {len(ops)} operations',
+                           dict(rep, signature=f'model:sparse-vs-dense:{sig}{cls(name)}')))
+            ctx.count(f'{routine}:sparse-vs-dense-semantics', [name, rep['matrix'], nc, nf], True)
+        except Exception:
+            pass                                                  # reported by add_ops_checks
+    else:
+        add_heavy(checks, c, 2 ** n * len(ops))
 
 
 def schmidt_min(psi):
@@ -1846,6 +2199,43 @@ def run_cphase(ctx, cirq, mods, conv, checks, name, theta, phi, exponent, feasib
                    (2, True, lambda op: op.gate == fg, 'exactly two copies of the FSim gate'), True, extra=dict(theta=theta, phi=phi, exponent=exponent, feasible=feasible))
 
 
+def ctrl_stream(ctx, cirq, mods, conv, inputs1, checks, scale):
+    """decompose_multi_controlled_rotation / decompose_multi_controlled_x over the shapes (controls, borrowed qubits): every shape of at most 9 qubits and a fixed
+    selection on 10 and 11 qubits, so that each branch of the construction (Barenco et al. Lemma 7.2 ladder with 0, 1, 2 and 3 rungs, Lemma 7.3 split with its
+    recursive calls, the general recursion without borrowed qubits) is reached at every VERIF_SEED, directly and through the rotations with 5..10 controls."""
+    rng = ctx.rng
+    quick = ctx.tier == 'quick'
+    ones = dict(inputs1)
+    mats = ['X', 'Z', 'H', 'T', 'identity', '-identity', 'i*identity', 'rx(pi/2)', 'ry(0.3)', 'rz(pi)', 'rx(0)+1e-09', 'clifford#11', 'X*phase', 'Y**0.5']
+    R = 'decompose_multi_controlled_rotation'
+    for k, nm in enumerate(mats):
+        for nc in ([0, 1, 2, 3, 4] if k % 4 == 0 else [k % 3 + 1, 3]) + [5 + k % 3]:
+            run_ctrl(ctx, cirq, mods, conv, checks, R, dict(controls=nc), nm, ones[nm])
+    for k, (nm, u) in enumerate(real_dtype_1q()):          # "2x2 numpy unitary matrix (of real or complex dtype)"
+        for nc in ([0, 1, 2, 3, 6] if k % 4 == 0 else [k % 3 + 1, 4 + k % 3]):
+            run_ctrl(ctx, cirq, mods, conv, checks, R, dict(controls=nc), nm, u)
+    # many controls: special unitary (linear construction, one borrowed control) and general (quadratic recursion) matrices, frozen
+    r = name_rng('ctrl:many')
+    h1, h2 = gates.random_unitary(r, 2), gates.random_unitary(r, 2)
+    many = [('haar#0', h1, 8), ('su2:haar#0', su2(h1), 9), ('haar#1', h2, 7), ('su2:haar#1', su2(h2), 8), ('rz(pi)', ones['rz(pi)'], 9), ('ry(0.3)', ones['ry(0.3)'], 8), ('H', ones['H'], 8),
+            ('T', ones['T'], 7), ('-identity', ones['-identity'], 8), ('i*identity', ones['i*identity'], 7), ('Y**0.5', ones['Y**0.5'], 6), (REAL_DTYPE + 'rot(0.3)', np.asarray(rot2(0.3), dtype=complex), 9),
+            (REAL_DTYPE + 'reflection(0.3)', np.asarray(refl2(0.3), dtype=complex), 8)]
+    if not quick:
+        many += [('haar#0', h1, 9), ('su2:haar#0', su2(h1), 10), ('su2:haar#1', su2(h2), 10), ('Z', ones['Z'], 9), ('rx(pi/2)', ones['rx(pi/2)'], 10)]
+    for nm, u, nc in many:
+        run_ctrl(ctx, cirq, mods, conv, checks, R, dict(controls=nc), nm, u)
+    for i in range(3 * scale):
+        u = gates.random_unitary(rng, 2)
+        run_ctrl(ctx, cirq, mods, conv, checks, R, dict(controls=rng.choice([1, 2, 3, 4, 5, 6, 7])), 'random:haar', u)
+        run_ctrl(ctx, cirq, mods, conv, checks, R, dict(controls=rng.choice([2, 3, 4, 5, 6, 7, 8])), 'random:su2', su2(u))
+    shapes = [(nc, nf) for nc in range(0, 9) for nf in range(0, 9 - nc)]                       # every shape of at most 9 qubits
+    shapes += [(5, 4), (6, 3), (8, 1), (6, 4)] if quick else [(nc, 9 - nc) for nc in range(0, 10)] + [(6, 4), (7, 3), (5, 5), (9, 1)]
+    for nc, nf in shapes:
+        run_ctrl(ctx, cirq, mods, conv, checks, 'decompose_multi_controlled_x', dict(controls=nc, free=nf), 'X', ones['X'])
+    if PIPE is not None:
+        PIPE.hflush()
+
+
 def nq_stream(ctx, cirq, mods, conv, inputs1, inputs2, checks, scale):
     rng = ctx.rng
     ones = dict(inputs1)
@@ -1868,6 +2258,8 @@ def nq_stream(ctx, cirq, mods, conv, inputs1, inputs2, checks, scale):
                ('struct:haar4+haar4', np.block([[h4a, z4], [z4, h4b]])), ('struct:haar2(x)haar4', k3(h2, h4a)), ('struct:haar4(x)haar2', k3(h4b, h2)),
                ('struct:controlled-haar4', np.block([[np.eye(4), z4], [z4, h4a]])), ('struct:diag8:phases', np.diag(np.exp(1j * np.array([r3.uniform(0, 6.28) for _ in range(8)])))),
                ('struct:Z(x)S(x)T', k3(k3(ones['Z'], ones['S']), ones['T'])), ('struct:CNOT-on-q0,q2', np.eye(8)[[0, 1, 2, 3, 5, 4, 7, 6]])]
+    named3 += [('struct:' + n, u) for n, u in real_dtype_3q()]     # real orthogonal 8x8 matrices handed over as float64 / int64 arrays
+    named3.append(('random:' + REAL_DTYPE + 'SO(8)', np.asarray(random_so(rng, 8), dtype=complex)))
     perms3 = [[2, 1, 0], [1, 0, 2], [0, 2, 1], [2, 0, 1], [1, 2, 0]]
     for k, (name, u) in enumerate(named3):
         run_nq(ctx, cirq, mods, conv, checks, 'three_qubit_matrix_to_operations', {}, name, u)
@@ -1893,19 +2285,6 @@ def nq_stream(ctx, cirq, mods, conv, inputs1, inputs2, checks, scale):
     for name, u in [('4q:identity', np.eye(16)), ('4q:CNOT(x)ISWAP', np.kron(twos['CNOT'], twos['ISWAP'])), ('4q:random:haar16', gates.random_unitary(rng, 16))]:
         run_nq(ctx, cirq, mods, conv, checks, 'quantum_shannon_decomposition', {}, name, u)
     run_nq(ctx, cirq, mods, conv, checks, 'quantum_shannon_decomposition', dict(order=[3, 1, 0, 2]), '4q:CNOT(x)ISWAP', np.kron(twos['CNOT'], twos['ISWAP']))
-    # ---- multi-controlled ----
-    mats = ['X', 'Z', 'H', 'T', 'identity', '-identity', 'i*identity', 'rx(pi/2)', 'ry(0.3)', 'rz(pi)', 'rx(0)+1e-09', 'clifford#11', 'X*phase', 'Y**0.5']
-    for k, nm in enumerate(mats):
-        for nc in ([0, 1, 2, 3, 4] if k % 4 == 0 else [k % 3 + 1, 3]):
-            run_ctrl(ctx, cirq, mods, conv, checks, 'decompose_multi_controlled_rotation', dict(controls=nc), nm, ones[nm])
-    for i in range(3 * scale):
-        u = gates.random_unitary(rng, 2)
-        run_ctrl(ctx, cirq, mods, conv, checks, 'decompose_multi_controlled_rotation', dict(controls=rng.choice([1, 2, 3, 4])), 'random:haar', u)
-        run_ctrl(ctx, cirq, mods, conv, checks, 'decompose_multi_controlled_rotation', dict(controls=rng.choice([2, 3, 4])), 'random:su2', su2(u))
-    for nc in range(0, 5):
-        for nf in range(0, 3):
-            if nc + 1 + nf <= 5:
-                run_ctrl(ctx, cirq, mods, conv, checks, 'decompose_multi_controlled_x', dict(controls=nc, free=nf), 'X', ones['X'])
     # ---- state preparation ----
     b = math.sqrt(0.5)
     states = [('|00>', [1, 0, 0, 0]), ('|01>', [0, 1, 0, 0]), ('|10>', [0, 0, 1, 0]), ('|11>', [0, 0, 0, 1]), ('|++>', [0.5] * 4), ('bell:phi+', [b, 0, 0, b]), ('bell:phi-', [b, 0, 0, -b]),
@@ -1973,6 +2352,7 @@ class Pipeline:
     def __init__(self, ctx, checks, workers=12):
         from concurrent.futures import ThreadPoolExecutor
         self.ctx, self.checks, self.done, self.futs, self.names = ctx, checks, 0, [], []
+        self.hchecks, self.hfuts, self.hdone, self.hcost = [], [], 0, 0
         coq.coq_eval(f'c15_warm_{ctx.seed}', PRE + 'Eval vm_compute in true.\n')        # builds the dependencies once, under the lock
         self.names.append((f'c15_warm_{ctx.seed}', None))
         self.ex = ThreadPoolExecutor(max_workers=workers)
@@ -1987,11 +2367,31 @@ class Pipeline:
             self.futs.append((self.done, self.ex.submit(coq.coq_eval, name, text)))
             self.done += len(part)
 
+    def heavy(self, c, cost=1):
+        """An expression that may cost seconds (a circuit on 6..11 qubits run on every basis state; cost = basis states x operations): evaluated in
+        shards of bounded total cost (~2 s of vm_compute), each submitted as soon as it is full."""
+        self.hchecks.append(c)
+        self.hcost += cost
+        self.ctx.cov['multi_controlled_cost_basis_states_x_operations'] = self.ctx.cov.get('multi_controlled_cost_basis_states_x_operations', 0) + cost
+        if self.hcost >= 300000 or len(self.hchecks) - self.hdone >= 12:
+            self.hflush()
+
+    def hflush(self):
+        part = self.hchecks[self.hdone:]
+        if part:
+            text = PRE + 'Definition checks : list bool := [\n' + ';\n'.join(c[1] for c in part) + '].\nEval vm_compute in failing (fun b => b) checks.\n'
+            name = f'c15_h_{self.ctx.seed}_{self.hdone}'
+            self.names.append((name, None))
+            self.hfuts.append((self.hdone, self.ex.submit(coq.coq_eval, name, text)))
+            self.hdone, self.hcost = len(self.hchecks), 0
+
     def finish(self):
-        """-> indices into checks of the expressions that evaluated to false"""
+        """-> the checks whose expression evaluated to false"""
         self.flush(final=True)
+        self.hflush()
         try:
-            return [s0 + i for s0, f in self.futs for i in coq.parse_nat_list(coq.parse_evals(f.result())[0])]
+            return ([self.checks[s0 + i] for s0, f in self.futs for i in coq.parse_nat_list(coq.parse_evals(f.result())[0])]
+                    + [self.hchecks[s0 + i] for s0, f in self.hfuts for i in coq.parse_nat_list(coq.parse_evals(f.result())[0])])
         finally:
             self.ex.shutdown(wait=True)
             drop_case_files(self.names)
@@ -2003,6 +2403,13 @@ PIPE = None
 def tick():
     if PIPE is not None:
         PIPE.flush()
+
+
+def add_heavy(checks, c, cost=1):
+    if PIPE is not None:
+        PIPE.heavy(c, cost)
+    else:
+        checks.append(c)
 
 
 def evaluate(ctx, checks, pipe=None):
@@ -2019,7 +2426,7 @@ def evaluate(ctx, checks, pipe=None):
             drop_case_files(shards)
         return [si * SH + idx for si, out in enumerate(outs) for idx in coq.parse_nat_list(coq.parse_evals(out)[0])]
 
-    failing = [checks[i] for i in (pipe.finish() if pipe is not None else run_shards([c[1] for c in checks], 'a'))]
+    failing = pipe.finish() if pipe is not None else [checks[i] for i in run_shards([c[1] for c in checks], 'a')]
     # classify reconstruction failures: beyond the documented tolerance but within 10x of it, or worse
     second = [c for c in failing if 'loose' in c[3]]
     still = set(run_shards([c[3]['loose'] for c in second], 'b')) if second else set()
@@ -2032,6 +2439,8 @@ def evaluate(ctx, checks, pipe=None):
     alt_ok = {id(c) for k, c in enumerate(fourth) if k not in still4}
     for c in failing:
         stream, _, desc, rep = c
+        if callable(desc):
+            desc = desc()                              # a diagnostic that is only worth computing for a failing case
         rep = dict(rep)
         sig = rep.pop('signature')
         rep.pop('loose', None), rep.pop('loose2', None), rep.pop('sig_prefix', None), rep.pop('alt', None)
@@ -2092,7 +2501,13 @@ def run(ctx):
     tabulation_stream(ctx, cirq, mods, conv, inputs, checks, 1 if ctx.tier == 'quick' else 4)
     lap('tabulation')
     tick()
+    param_sqrt_iswap_stream(ctx, cirq, mods, conv, checks, n)
+    lap('param_sqrt_iswap')
+    tick()
     inputs1 = one_qubit_inputs(ctx, cirq, 30 * n)
+    ctrl_stream(ctx, cirq, mods, conv, inputs1, checks, n)          # first: its 6..11-qubit cases are evaluated in the background while the other streams run
+    lap('multi_controlled')
+    tick()
     one_qubit_stream(ctx, cirq, mods, conv, inputs1, checks)
     lap('one_qubit')
     tick()
@@ -2102,7 +2517,7 @@ def run(ctx):
     nq_stream(ctx, cirq, mods, conv, inputs1, inputs, checks, n)
     lap('nq')
     ctx.cov['operations_entering_through_cirq_unitary'] = dict(conv.via_unitary)
-    ctx.cov['coq_expressions'] = len(checks)
+    ctx.cov['coq_expressions'] = len(checks) + len(pipe.hchecks)
     PIPE = None
     evaluate(ctx, checks, pipe)
     lap('coq_evaluation_after_the_streams')
@@ -2119,6 +2534,7 @@ def replay(ctx, data):
         return not bad
     checks = []
     conv = Conv(cirq, mods)
+    before = len(ctx.violations) + len(ctx.known_hits)          # violations raised while the case is re-run (exceptions, malformed results) count as well
     if kind == 'synth':                  # cases recorded by add_ops_checks: the routine says which adapter produced them
         r = data['routine']
         if r in ROUTINES_1Q:
@@ -2147,6 +2563,9 @@ def replay(ctx, data):
         run_cphase(ctx, cirq, mods, conv, checks, data['input_class'], data['theta'], data['phi'], data['exponent'], data['feasible'])
     elif kind == 'known':
         run_known(ctx, cirq, mods, conv, checks, data['spec'])
+    elif kind == 'param':
+        PARAM_TREES.clear()
+        run_param(ctx, cirq, mods, conv, checks, data['spec'])
     elif kind == 'tab':
         tab = build_tab(ctx, cirq, data['tab'])
         if tab is None:
@@ -2166,6 +2585,5 @@ def replay(ctx, data):
     else:
         print('replay: unknown kind', kind)
         return False
-    before = len(ctx.violations) + len(ctx.known_hits)
     evaluate(ctx, checks)
     return len(ctx.violations) + len(ctx.known_hits) == before
